@@ -16,7 +16,74 @@ pub struct DurationLiteral {
     pub interval: Duration,
 }
 
+const NANOSECOND_PER_SECOND: u128 = 1_000_000_000;
+const NANOSECOND_PER_MILLISECOND: u128 = 1_000_000;
+
 impl DurationLiteral {
+    /// Creates the duration that is the fixed point number of units, where
+    /// the unit has the given number of nanoseconds. The result is exact:
+    /// returns an error if the value is more precise than one nanosecond or
+    /// is outside of the range of a duration.
+    fn try_from_units(value: FixedPoint, nanos_per_unit: u128) -> Result<Self, &'static str> {
+        // The largest intermediate value is below 2^64 * 10^14 so this cannot
+        // overflow 128 bits.
+        let fractional_units = FixedPoint::FRACTIONAL_UNITS as u128;
+        let fraction = (value.femptos as u128) * nanos_per_unit;
+        if fraction % fractional_units != 0 {
+            return Err("duration is more precise than one nanosecond");
+        }
+        let nanoseconds = (value.whole as u128) * nanos_per_unit + fraction / fractional_units;
+
+        let seconds = i64::try_from(nanoseconds / NANOSECOND_PER_SECOND)
+            .map_err(|_| "duration is out of range")?;
+        let subsec_nanoseconds = (nanoseconds % NANOSECOND_PER_SECOND) as i32;
+        Ok(Self {
+            span: value.span,
+            interval: Duration::new(seconds, subsec_nanoseconds),
+        })
+    }
+
+    /// Create a new `DurationLiteral` with the given number of days or an
+    /// error if the duration cannot be represented exactly.
+    pub fn try_days(days: FixedPoint) -> Result<Self, &'static str> {
+        Self::try_from_units(days, SECOND_PER_DAY as u128 * NANOSECOND_PER_SECOND)
+    }
+
+    /// Create a new `DurationLiteral` with the given number of hours or an
+    /// error if the duration cannot be represented exactly.
+    pub fn try_hours(hours: FixedPoint) -> Result<Self, &'static str> {
+        Self::try_from_units(hours, SECOND_PER_HOUR as u128 * NANOSECOND_PER_SECOND)
+    }
+
+    /// Create a new `DurationLiteral` with the given number of minutes or an
+    /// error if the duration cannot be represented exactly.
+    pub fn try_minutes(minutes: FixedPoint) -> Result<Self, &'static str> {
+        Self::try_from_units(minutes, SECOND_PER_MINUTE as u128 * NANOSECOND_PER_SECOND)
+    }
+
+    /// Create a new `DurationLiteral` with the given number of seconds or an
+    /// error if the duration cannot be represented exactly.
+    pub fn try_seconds(seconds: FixedPoint) -> Result<Self, &'static str> {
+        Self::try_from_units(seconds, NANOSECOND_PER_SECOND)
+    }
+
+    /// Create a new `DurationLiteral` with the given number of milliseconds or
+    /// an error if the duration cannot be represented exactly.
+    pub fn try_milliseconds(millis: FixedPoint) -> Result<Self, &'static str> {
+        Self::try_from_units(millis, NANOSECOND_PER_MILLISECOND)
+    }
+
+    /// Adds the durations or returns an error if the sum is out of range.
+    pub fn try_plus(&self, other: DurationLiteral) -> Result<Self, &'static str> {
+        Ok(DurationLiteral {
+            span: SourceSpan::join(&self.span, &other.span),
+            interval: self
+                .interval
+                .checked_add(other.interval)
+                .ok_or("duration is out of range")?,
+        })
+    }
+
     /// Create a new `DurationLiteral` with the given number of days.
     ///
     /// ```rust
@@ -26,18 +93,7 @@ impl DurationLiteral {
     /// assert_eq!(DurationLiteral::days(FixedPoint::parse("1").unwrap()).interval, Duration::days(1));
     /// ```
     pub fn days(days: FixedPoint) -> Self {
-        // The whole part is entirely seconds
-        let whole_seconds = Duration::days(days.whole as i64);
-
-        // The fraction has both seconds and one part femptoseconds
-        let fraction_seconds = Duration::microseconds(
-            (days.femptos * SECOND_PER_DAY / FixedPoint::FRACTIONAL_UNITS) as i64,
-        );
-
-        Self {
-            span: days.span,
-            interval: whole_seconds + fraction_seconds,
-        }
+        Self::try_days(days).expect("duration that can be represented")
     }
 
     /// Create a new `DurationLiteral` with the given number of hours.
@@ -50,18 +106,7 @@ impl DurationLiteral {
     /// assert_eq!(DurationLiteral::seconds(FixedPoint::parse("1.001").unwrap()).interval, Duration::seconds(1) + Duration::milliseconds(1));
     /// ```
     pub fn hours(hours: FixedPoint) -> Self {
-        // The whole part is entirely seconds
-        let whole_seconds = Duration::hours(hours.whole as i64);
-
-        // The fraction has both seconds and one part femptoseconds
-        let fraction_seconds = Duration::microseconds(
-            (hours.femptos * SECOND_PER_HOUR / FixedPoint::FRACTIONAL_UNITS) as i64,
-        );
-
-        Self {
-            span: hours.span,
-            interval: whole_seconds + fraction_seconds,
-        }
+        Self::try_hours(hours).expect("duration that can be represented")
     }
 
     /// Create a new `DurationLiteral` with the given number of minutes.
@@ -74,17 +119,7 @@ impl DurationLiteral {
     /// assert_eq!(DurationLiteral::seconds(FixedPoint::parse("1.001").unwrap()).interval, Duration::seconds(1) + Duration::milliseconds(1));
     /// ```
     pub fn minutes(minutes: FixedPoint) -> Self {
-        // The whole part is entirely seconds
-        let whole_seconds = Duration::minutes(minutes.whole as i64);
-
-        // The fraction has both seconds and one part femptoseconds
-        let fraction_seconds = Duration::microseconds(
-            (minutes.femptos * SECOND_PER_MINUTE / FixedPoint::FRACTIONAL_UNITS) as i64,
-        );
-        Self {
-            span: minutes.span,
-            interval: whole_seconds + fraction_seconds,
-        }
+        Self::try_minutes(minutes).expect("duration that can be represented")
     }
 
     /// Create a new `DurationLiteral` with the given number of seconds.
@@ -97,12 +132,7 @@ impl DurationLiteral {
     /// assert_eq!(DurationLiteral::seconds(FixedPoint::parse("1.001").unwrap()).interval, Duration::seconds(1) + Duration::milliseconds(1));
     /// ```
     pub fn seconds(seconds: FixedPoint) -> Self {
-        let whole_seconds = Duration::seconds(seconds.whole as i64);
-        let fraction_seconds = Duration::nanoseconds((seconds.femptos / 1_000_000) as i64);
-        Self {
-            span: seconds.span,
-            interval: whole_seconds + fraction_seconds,
-        }
+        Self::try_seconds(seconds).expect("duration that can be represented")
     }
 
     /// Create a new `DurationLiteral` with the given number of milliseconds.
@@ -117,14 +147,7 @@ impl DurationLiteral {
     /// assert_eq!(DurationLiteral::milliseconds(FixedPoint::parse("0.001").unwrap()).interval, Duration::microseconds(1));
     /// ```
     pub fn milliseconds(millis: FixedPoint) -> Self {
-        let whole_seconds = Duration::seconds((millis.whole / 1_000) as i64);
-        let whole_milliseconds = Duration::milliseconds((millis.whole % 1_000) as i64);
-
-        let fraction_nanoseconds = Duration::nanoseconds((millis.femptos / 1_000_000_000) as i64);
-        Self {
-            span: millis.span,
-            interval: whole_seconds + whole_milliseconds + fraction_nanoseconds,
-        }
+        Self::try_milliseconds(millis).expect("duration that can be represented")
     }
 
     pub fn plus(&self, other: DurationLiteral) -> Self {
